@@ -13,7 +13,7 @@ fn verif_id(s: &str) -> anemo::PeerId {
 /// C20: AllowedPeers::new(VERIF_CEX_LIST).authorize(request from VERIF_CEX_SENDER | no sender) accepts exactly the listed senders.
 #[test]
 fn verif_replay_c20_allow_list() {
-    let list: Vec<anemo::PeerId> = std::env::var("VERIF_CEX_LIST").expect("VERIF_CEX_LIST").split(',').map(verif_id).collect();
+    let list: Vec<anemo::PeerId> = std::env::var("VERIF_CEX_LIST").expect("VERIF_CEX_LIST").split(',').filter(|s| !s.trim().is_empty()).map(verif_id).collect();
     let sender = std::env::var("VERIF_CEX_SENDER").ok().filter(|s| !s.is_empty()).map(|s| verif_id(&s));
     let auth = AllowedPeers::new(list.clone());
     let mut req = anemo::Request::new(bytes::Bytes::new());
